@@ -485,19 +485,81 @@ def parseOn (ops : List Op) (fns : List Bytes) (old : St) (s : Bytes) : R St :=
 def parseOnNoReset (ops : List Op) (fns : List Bytes) (old : St) (s : Bytes) : R St :=
   parseLoop ops fns [] s old false none
 
-/-- what the model assumes the stacks hold after a REJECTED expression: `R.err` carries no stacks, so the model does
-    not track which operands/operators had been pushed; it continues from this non-empty state (the theorems hold for
-    EVERY old state) -/
-def St.afterError (s : Bytes) : St :=
-  ⟨[.operand none s, .operand none s], [⟨⟨MINUS, 50, true, true⟩, none⟩]⟩
+/-! ### the stacks a REJECTED `parse` leaves behind (`R.err` carries no stacks): every error exit of `parse`,
+    `processOperator`, `processFunction`, with the mutations the Go code has made by then -/
+
+/-- `case ")"` when it returns an error: the reductions are done; the `(` entry is already popped when the
+    operand for its unary operator turns out to be missing -/
+def closeParenL (st : St) : St :=
+  match reduceWhile (fun e => e.op.sym != LP) (st.ops.length + 1) st with
+  | .ok st' =>
+    (match st'.ops with
+     | [] => st'
+     | e :: rest => if e.op.sym != LP then st' else { st' with ops := rest })
+  | _ => st
+
+/-- `processFunction` when it returns an error: the name operand is already popped when the function turns out to be
+    undefined -/
+def callFunctionL (fns : List Bytes) (st : St) : St :=
+  match st.opds with
+  | .operand _ v :: rest => if fns.contains v then st else { st with opds := rest }
+  | _ => st
+
+/-- `processOperator` when it returns an error -/
+def processOperatorL (ops : List Op) (fns : List Bytes) (pre rest : Bytes) (st : St) (op : Op) (hv : Bool) : St :=
+  if hv && op.sym == LP then
+    match rest with
+    | [] => st
+    | c :: t =>
+      match captureArgs ops (t.length + 1) 1 (c :: pre) t [] with
+      | .ok _ => callFunctionL fns st
+      | _ => st
+  else if op.sym == RP then closeParenL st else st
+
+/-- one iteration of the scan loop when it ends the parse with an error: the operand before the operator (if any) is
+    already pushed -/
+def scanStepL (ops : List Op) (fns : List Bytes) (pre : Bytes) (c : Nat) (t : Bytes) (st : St) (hv : Bool)
+    (un : Option Op) : St :=
+  match nextOperator ops pre (c :: t) with
+  | none => st
+  | some (sk, op, p, r) =>
+    if sk = [] then (if op.un && !hv then st else processOperatorL ops fns p r st op hv)
+    else if trimSpace sk = [] then st
+    else (if op.un && !true then st else processOperatorL ops fns p r (pushOperand st un (trimSpace sk)) op true)
+
+/-- the stacks when the loop of `parse` returns — with the result of `parseLoop` when that is a state
+    (`parseLoopL_ok`), with what an error exit leaves otherwise -/
+def parseLoopL (ops : List Op) (fns : List Bytes) (pre rest : Bytes) (st : St) (hv : Bool) (un : Option Op) : St :=
+  match rest with
+  | [] => st
+  | c :: t =>
+    if isScanSpace c then parseLoopL ops fns (c :: pre) t st hv un
+    else
+      match scanStep ops fns pre c t st hv un with
+      | .done (.ok st') => st'
+      | .done _ => scanStepL ops fns pre c t st hv un
+      | .cont p r st' hv' un' =>
+        if r.length < (c :: t).length then parseLoopL ops fns p r st' hv' un' else st'
+termination_by rest.length
+decreasing_by
+  · simp
+  · assumption
+
+/-- the stacks a rejected `parse` leaves on an evaluator that held `old` -/
+def leftoverOn (ops : List Op) (fns : List Bytes) (old : St) (s : Bytes) : St :=
+  parseLoopL ops fns [] s old.reset false none
+
+/-- … WITHOUT the two reset statements -/
+def leftoverOnNoReset (ops : List Op) (fns : List Bytes) (old : St) (s : Bytes) : St :=
+  parseLoopL ops fns [] s old false none
 
 /-- `Evaluate` on a used evaluator: the stacks left behind, and the result.  `prs` is `parseOn` (or, for the
-    counter-example, `parseOnNoReset`); nested `EvaluateNew` calls are on fresh evaluators (`evaluate … depth`) -/
-def evaluateWith (prs : St → Bytes → R St) (ops : List Op) (fns : List Bytes) (resolve : Option (Bytes → Bytes))
-    (depth : Nat) (old : St) (s : Bytes) : St × R Bytes :=
+    counter-example, `parseOnNoReset`), `lft` the stacks a rejected parse leaves (`leftoverOn` / `leftoverOnNoReset`); nested `EvaluateNew` calls are on fresh evaluators (`evaluate … depth`) -/
+def evaluateWith (prs : St → Bytes → R St) (lft : St → Bytes → St) (ops : List Op) (fns : List Bytes)
+    (resolve : Option (Bytes → Bytes)) (depth : Nat) (old : St) (s : Bytes) : St × R Bytes :=
   match prs old s with
-  | .err => (St.afterError s, .err)
-  | .panic => (St.afterError s, .panic)
+  | .err => (lft old s, .err)
+  | .panic => (lft old s, .panic)
   | .ok st =>
     match finish (st.ops.length + 1) st with
     | .err => (st, .err)
@@ -520,12 +582,12 @@ def driverBudget (s : Bytes) : Nat := s.length * 33 + 1
 /-- `Evaluate` on the evaluator the driver keeps from line to line -/
 def evaluateReuse (ops : List Op) (fns : List Bytes) (resolve : Option (Bytes → Bytes)) (old : St) (s : Bytes) :
     St × R Bytes :=
-  evaluateWith (parseOn ops fns) ops fns resolve (driverBudget s) old s
+  evaluateWith (parseOn ops fns) (leftoverOn ops fns) ops fns resolve (driverBudget s) old s
 
 /-- the variant without the reset -/
 def evaluateNoReset (ops : List Op) (fns : List Bytes) (resolve : Option (Bytes → Bytes)) (old : St) (s : Bytes) :
     St × R Bytes :=
-  evaluateWith (parseOnNoReset ops fns) ops fns resolve (driverBudget s) old s
+  evaluateWith (parseOnNoReset ops fns) (leftoverOnNoReset ops fns) ops fns resolve (driverBudget s) old s
 
 /-- the tree with the variables of operands and argument texts substituted (what the value pass walks) -/
 def substNode (rv : Bytes → R Bytes) : Node → R Node
